@@ -33,6 +33,9 @@ def handle (inp out : List String) : String :=
         | _ => some "panic-or-unparsable"
       verdict out out prop
     | _, _, _, _, _, _, _ => "BADLINE c16 mn"
+  | ["pegbig", _nr, _nc, _wc, _seed] =>
+    -- PEG on more than 65536 rows: the rule is replayed by the harness (the Rust twin of `pegAccepts`, which is quadratic on lists)
+    verdict ["rule-ok"] out (if out ≠ ["rule-ok"] then some ("peg-on-more-than-65536-rows: " ++ " ".intercalate out) else none)
   | ["peg", nr, nc, wc, _seed] =>
     match nr.toNat?, nc.toNat?, wc.toNat? with
     | some nr, some nc, some wc =>
